@@ -140,6 +140,17 @@ CLAIMS["C04"] = dict(
     technique="static analysis: who-may-write + effect analysis + CFG pairing + contradiction rule + normal-form tables",
     design="DESIGN.md section 5, C04")
 
+CLAIMS["C08"] = dict(
+    text="Code-shape part of 'insertion is an isomorphism': every NodeData field is transferred (op, mapped parent with root -> "
+         "requested parent, output count, metadata) or on the derived list; the link loop ranges over all source links with both "
+         "endpoints mapped, offsets kept (incl. -1) and directions not crossed; no store or mutator reaches the source HUGR (effect "
+         "analysis on the parameter); the copy loop takes its parent-first order from the hierarchy; the four insert_* wrappers "
+         "delegate to _insert_nested_impl with the wire order of their add_* twins (sibling agreement).",
+    note="Not decided: that the result is an isomorphism for every pair of graphs (multiplicities, sub-offset order) -- needs "
+         "execution. Observation, not raised: metadata dicts and op objects are shared by reference.",
+    technique="static analysis: field-coverage rule over NodeData + effect analysis on the source parameter + sibling agreement",
+    design="DESIGN.md section 5, C08")
+
 NOT_APPLICABLE_REASON: dict[str, str] = {}
 
 
